@@ -525,6 +525,8 @@ func (c *Ctx) checkLoggerGates(r *Report, ro *Roles) {
 			}
 			if hasGate(d.Gates, recv+".LoggerBase.Level", lvl) || hasGate(d.Gates, recv+".Level", lvl) {
 				r.OK(key, "logger-range gate on the true edge; gates on the chain: %v", d.Gates)
+			} else if fld := c.innerGateField(rt.owner, recv, lvl, d.Gates); fld != "" {
+				r.OK(key, "the range gate is applied by the inner logger %s.%s, every value stored there is built with a copy of the outer LoggerBase; gates on the chain: %v", recv, fld, d.Gates)
 			} else {
 				r.Fail(key, d.Pos, "delivery without the logger's own range gate Enable(%s.Level, %s)=true; gates on the chain %s: %v", recv, lvl, d.Chain, d.Gates)
 			}
@@ -590,6 +592,66 @@ func (c *Ctx) checkRefGate(r *Report, root *ssa.Function, d delivery, lvl string
 
 // checkInnerLoggerBase: delegation to an inner logger is accepted only if every inner logger
 // is constructed with a copy of the outer logger's LoggerBase (same level range).
+// innerGateField: the chain is gated by Enable(<recv>.<field>.LoggerBase.Level, level) where <field> holds a concrete
+// inner logger, and every value stored into that field is a fresh struct whose LoggerBase is a copy of the owner's
+// LoggerBase (so the inner gate applies the configured range). Returns the field name or "".
+func (c *Ctx) innerGateField(owner *types.Named, recv, lvl string, gates []string) string {
+	st, ok := owner.Underlying().(*types.Struct)
+	if !ok {
+		return ""
+	}
+	for i := 0; i < st.NumFields(); i++ {
+		f := st.Field(i)
+		if !hasGate(gates, recv+"."+f.Name()+".LoggerBase.Level", lvl) && !hasGate(gates, recv+"."+f.Name()+".Level", lvl) {
+			continue
+		}
+		n, okAll := 0, true
+		for _, fn := range c.Funcs {
+			eachInstr(fn, func(in ssa.Instruction) {
+				sto, ok := in.(*ssa.Store)
+				if !ok {
+					return
+				}
+				fa, ok := sto.Addr.(*ssa.FieldAddr)
+				if !ok || fieldName(fa) != f.Name() || recvTypeOfAddr(fa) != owner {
+					return
+				}
+				if isNilConst(sto.Val) {
+					return
+				}
+				n++
+				al, ok := sto.Val.(*ssa.Alloc)
+				if !ok {
+					okAll = false
+					return
+				}
+				copied := false
+				for _, u := range *al.Referrers() {
+					fa2, ok := u.(*ssa.FieldAddr)
+					if !ok || fieldName(fa2) != "LoggerBase" || fa2.Referrers() == nil {
+						continue
+					}
+					for _, u2 := range *fa2.Referrers() {
+						if st2, ok := u2.(*ssa.Store); ok && st2.Addr == fa2 {
+							p := c.accessPath(st2.Val, &Frame{Fn: fn})
+							if strings.HasSuffix(p, ".LoggerBase") && strings.HasPrefix(p, "param:") {
+								copied = true
+							}
+						}
+					}
+				}
+				if !copied {
+					okAll = false
+				}
+			})
+		}
+		if n > 0 && okAll {
+			return f.Name()
+		}
+	}
+	return ""
+}
+
 func (c *Ctx) checkInnerLoggerBase(r *Report, owner *types.Named, d delivery, key string) {
 	// stores into the delegating field
 	field := d.Recv[strings.LastIndex(d.Recv, ".")+1:]
